@@ -413,12 +413,13 @@ def g2(ctx, res):
     v, prop = call.params[1].name, call.params[2].name
     guard_ok = False
     val_call = None
-    for n in walk_own(call.body):
+    vcall = V(ctx, call)  # local aliases of the guard inlined (`applicable = ...; if not applicable: return`)
+    for n in walk_own(vcall.body):
         if isinstance(n, ast.Call) and norm(n.func) == "self._validate":
             val_call = n
     if val_call is None:
         raise AnalysisError("Validator.__call__ no longer calls self._validate")
-    P = Parents(call)
+    P = Parents(vcall.body)
     gs = flat_guards(P, val_call)
     # reached iff not (types and not _is_instance(value, types))
     raw = guards_of(P, val_call)
@@ -445,7 +446,9 @@ def g2(ctx, res):
                 if reached != want:
                     good = False
         guard_ok = good
-    res.check(guard_ok, call, f"_validate reached iff not self.types or _is_instance({v}, self.types)",
+    if not guard_ok and len(raw) == 1 and any(eval3(raw[0][0], atom_eval_factory(tt, ii)) is None for tt in (True, False) for ii in (True, False)):
+        guard_ok = None  # the test mentions something other than the two atoms: not interpreted
+    res.judge(guard_ok, call, f"_validate reached iff not self.types or _is_instance({v}, self.types)",
               detail={"guards": [(norm(t), p) for t, p in raw]},
               reason="a keyword is ignored for values outside its instance types, and applied to all others")
     hs = handlers_of(P, val_call)
@@ -974,7 +977,10 @@ def g4(ctx, res):
               reason="`not` rejects exactly when the inner schema accepts")
     cc = ctx.cls("CompositionElement").methods["construct"]
     v, pr = cc.params[1].name, cc.params[2].name
-    res.judge(True if (has(f"return _attempt_schemas(self.elements, {v}, {pr}, mode=self.mode)", cc)) else None, cc,
+    vcc = V(ctx, cc)  # `mode = getattr(self, "mode", None)` read once into a local is the same attribute
+    res.judge(True if (has(f"return _attempt_schemas(self.elements, {v}, {pr}, mode=self.mode)", cc) or
+                       has(f"return _attempt_schemas(self.elements, {v}, {pr}, mode=self.mode)", vcc.body) or
+                       has(f"return _attempt_schemas(self.elements, {v}, {pr}, mode=getattr(self, 'mode', None))", vcc.body)) else None, cc,
               "return _attempt_schemas(self.elements, value, property_, mode=self.mode)",
               reason="every composed element takes part, under the class's own mode")
 
@@ -1857,7 +1863,10 @@ def g11(ctx, res):
         if cyclic_builder(b):
             if (b.name and b.name in cyc_names) or (b.node is not None and any(x is b.node for x in ast.walk(cyc_test))):
                 okc = True
-    if okc is None and match(_parse(f"any((MV_n in {D}[MV_n] for MV_n in {D}))"), cyc_test) is not None:
+    if okc is None and any(match(_parse(fm), cyc_test) is not None for fm in (
+            f"any((MV_n in {D}[MV_n] for MV_n in {D}))",
+            f"any((MV_n in MV_d for MV_n, MV_d in {D}.items()))",
+            f"any((MV_n in {D}[MV_n] for MV_n, MV_d in {D}.items()))")):
         okc = True
     if okc is None:
         # a self-reachability test applied to a NARROWER set than all classes of the table (e.g. only the entry points)
@@ -1874,6 +1883,8 @@ def g11(ctx, res):
         is_table = b.kind == "dict" and b.name == D and b.key is not None
         if not is_table:
             continue
+        if norm(b.iter) in (D, f"{D}.keys()", f"list({D})", f"{D}.items()", f"list({D}.items())"):
+            continue  # a rewrite of the existing entries (removal of an emitted name): judged by the progress clause
         c_ = norm(b.target)
         key_ok = norm(b.key) == f"{c_}.__name__" or (isinstance(b.key, ast.Name) and has(f"{b.key.id} = {c_}.__name__", vod))
         inner = [ib for ib in builders([ast.Expr(value=b.elt)]) if ib.kind == "list"] if isinstance(b.elt, ast.ListComp) else \
@@ -1906,7 +1917,9 @@ def g11(ctx, res):
             okn = False
     res.judge(okn, od, "_next(): a class with no remaining dependencies", reason="only a class whose dependencies were all emitted is emitted")
     goc = ctx.func("get_object_classes")
-    goc_verdict = True if (has("isinstance(MV_e, ObjectMeta)", goc) and has("get_children(MV_e)", goc) and has("list(MV_es)", goc)) else None
+    ep0 = goc.params[0].name if goc.params else "elements"
+    goc_verdict = True if (has("isinstance(MV_e, ObjectMeta)", goc) and has("get_children(MV_e)", goc) and
+                           (has("list(MV_es)", goc) or has(f"chain({ep0}, MV__)", goc) or has(f"itertools.chain({ep0}, MV__)", goc))) else None
     goc_detail = {}
     if goc_verdict is None:
         # positive evidence: the children are walked from a FILTERED selection of the entry points
